@@ -67,9 +67,9 @@ def stepLine (d : DS) : List String → DS × String
   | ["swap", a, b] => match parseNat? a, parseNat? b with
     | some a, some b => upd d (swap d.st a b)
     | _, _ => (d, "bad-op")
-  | ["cascade", l] => match parseNatList? l with
+  | ["cascade", l] => match parseList? (fun w => if w = "_" then some none else (parseNat? w).map some) l with
     | some l =>
-      let r := cascade d.st l
+      let r := cascadeOpt d.st l
       let d' := { d with st := r.1 }
       (d', showDS d' ++ (if r.2 then " raised" else ""))
     | none => (d, "bad-op")
